@@ -134,6 +134,203 @@ pick (HRng *r, int size, int mode)
   return size >= 8 ? v : v & ((1ULL << (8 * size)) - 1);
 }
 
+
+/* ------------------------------------------------------------------ float modes (C18)
+ * flt: operands from structured tables (all pairs of the table, then seeded random), second
+ * operand an array; fpar / fcon: second operand a float / double parameter / constant.
+ * FRun events carry, for the opcodes with a rounded core, the operands as this harness flushed
+ * them and the host's IEEE result in round-to-nearest (fa, fb, h) for spec/OrcFloat.tla. */
+#include <math.h>
+#include <xmmintrin.h>
+static const orc_uint32 ftab[] = { 0x00000000, 0x80000000, 0x00000001, 0x807fffff, 0x007fffff, 0x80000001, 0x00800000, 0x80800000,
+  0x00800001, 0x00ffffff, 0x01000000, 0x3f800000, 0xbf800000, 0x40000000, 0xc0000000, 0x3f000000, 0x3fc00000, 0x40200000,
+  0x40600000, 0x3effffff, 0x3f000001, 0x3f7fffff, 0x3f800001, 0x33800000, 0x34000000, 0x4b000000, 0x4b7fffff, 0x4b800000,
+  0x4b800001, 0xcb800001, 0x4effffff, 0x4f000000, 0xcf000000, 0xcf000001, 0x4f000001, 0xceffffff, 0x4f800000, 0x5f000000,
+  0x7f7fffff, 0xff7fffff, 0x7f000000, 0x7e800000, 0x7f800000, 0xff800000, 0x7fc00000, 0xffc00000, 0x7f800001, 0xffffffff,
+  0x1e000000, 0x20000000, 0x60000000, 0x40490fdb, 0xc2f6e979, 0x3eaaaaab, 0x461c4000, 0x3a83126f, 0x00400000, 0x80400000,
+  0x3fffffff, 0x40400000 };
+#define NFT ((int) (sizeof (ftab) / sizeof (ftab[0])))
+static const orc_uint64 dtab[] = { 0x0000000000000000ULL, 0x8000000000000000ULL, 0x0000000000000001ULL, 0x800fffffffffffffULL,
+  0x000fffffffffffffULL, 0x0010000000000000ULL, 0x8010000000000000ULL, 0x0010000000000001ULL, 0x3ff0000000000000ULL,
+  0xbff0000000000000ULL, 0x4000000000000000ULL, 0x3fe0000000000000ULL, 0x3ff8000000000000ULL, 0x4004000000000000ULL,
+  0x3fdfffffffffffffULL, 0x3fe0000000000001ULL, 0x3fefffffffffffffULL, 0x3ff0000000000001ULL, 0x41dfffffffc00000ULL,
+  0x41e0000000000000ULL, 0xc1e0000000000000ULL, 0xc1e0000000200000ULL, 0x41dfffffffe00000ULL, 0xc1e0000000100000ULL,
+  0x41f0000000000000ULL, 0x4330000000000000ULL, 0x433fffffffffffffULL, 0x4340000000000000ULL, 0x7fefffffffffffffULL,
+  0xffefffffffffffffULL, 0x7fe0000000000000ULL, 0x7ff0000000000000ULL, 0xfff0000000000000ULL, 0x7ff8000000000000ULL,
+  0xfff8000000000000ULL, 0x7ff0000000000001ULL, 0xffffffffffffffffULL, 0x3690000000000000ULL, 0x36a0000000000000ULL,
+  0x380fffffffffffffULL, 0x3810000000000000ULL, 0x380ffffff0000000ULL, 0x47efffffe0000000ULL, 0x47effffff0000000ULL,
+  0x47f0000000000000ULL, 0x3ff0000010000000ULL, 0x3ff0000030000000ULL, 0x3ff0000010000001ULL, 0x400921fb54442d18ULL,
+  0xc05edd2f1a9fbe77ULL, 0x3fd5555555555555ULL, 0x1ff0000000000000ULL, 0x5ff0000000000000ULL, 0x0008000000000000ULL,
+  0x36f0000000000000ULL, 0xb6a0000000000001ULL };
+#define NDT ((int) (sizeof (dtab) / sizeof (dtab[0])))
+static const orc_uint32 itab[] = { 0, 1, 2, 3, 0xffffffff, 0xfffffffe, 0x7fffffff, 0x80000000, 0x80000001, 0x7ffffffe, 0x00ffffff,
+  0x01000000, 0x01000001, 0x01000002, 0x01000003, 0x02000002, 0x02000003, 0x02000006, 0xff000000, 0xfeffffff, 0xfefffffe,
+  0x7fffff80, 0x7fffffc0, 0x7fffffbf, 0x7fffff40, 0x80000080, 0x800000c0, 0x00800000, 0x00800001, 0x7fff, 0x8000, 0xffff8000,
+  0xffff7fff, 0x12345678, 0x87654321, 0x3fffffff, 0x40000000, 0x40000040, 0x40000041, 0x4000003f };
+#define NIT ((int) (sizeof (itab) / sizeof (itab[0])))
+
+static orc_uint32 flush32 (orc_uint32 v) { return (v & 0x7f800000) ? v : (v & 0x80000000); }
+static orc_uint64 flush64 (orc_uint64 v) { return (v & 0x7ff0000000000000ULL) ? v : (v & 0x8000000000000000ULL); }
+static orc_uint64 getv (const orc_uint8 *p, int size) { orc_uint64 v = 0; int i; for (i = 0; i < size; i++) v |= (orc_uint64) p[i] << (8 * i); return v; }
+
+/* host IEEE arithmetic in round-to-nearest on flushed operands; 0 when the opcode has no rounded core */
+static int
+oracle (const char *op, orc_uint64 fa, orc_uint64 fb, orc_uint64 *h)
+{
+  size_t L = strlen (op);
+  if (!strcmp (op, "convdf")) { union { double d; orc_uint64 i; } a; union { float f; orc_uint32 i; } r; volatile double t; a.i = fa; t = a.d; r.f = (float) t; *h = r.i; return 1; }
+  if (L == 4 && op[3] == 'f' && (!strncmp (op, "add", 3) || !strncmp (op, "sub", 3) || !strncmp (op, "mul", 3) || !strncmp (op, "div", 3))) {
+    union { float f; orc_uint32 i; } a, b, r; volatile float x, y, z; a.i = (orc_uint32) fa; b.i = (orc_uint32) fb; x = a.f; y = b.f;
+    z = op[0] == 'a' ? x + y : op[0] == 's' ? x - y : op[0] == 'm' ? x * y : x / y; r.f = z; *h = r.i; return 1;
+  }
+  if (L == 4 && op[3] == 'd' && (!strncmp (op, "add", 3) || !strncmp (op, "sub", 3) || !strncmp (op, "mul", 3) || !strncmp (op, "div", 3))) {
+    union { double f; orc_uint64 i; } a, b, r; volatile double x, y, z; a.i = fa; b.i = fb; x = a.f; y = b.f;
+    z = op[0] == 'a' ? x + y : op[0] == 's' ? x - y : op[0] == 'm' ? x * y : x / y; r.f = z; *h = r.i; return 1;
+  }
+  if (!strcmp (op, "sqrtf")) { union { float f; orc_uint32 i; } a, r; volatile float x; a.i = (orc_uint32) fa; x = a.f; r.f = sqrtf (x); *h = r.i; return 1; }
+  if (!strcmp (op, "sqrtd")) { union { double f; orc_uint64 i; } a, r; volatile double x; a.i = fa; x = a.f; r.f = sqrt (x); *h = r.i; return 1; }
+  return 0;
+}
+
+static orc_uint64
+fpick (HRng *r, int size, int intsrc, unsigned long idx, int second, int random)
+{
+  if (intsrc) return random ? (orc_uint32) hrng_next (r) : itab[idx % NIT];
+  if (size == 4) {
+    if (!random) return second ? ftab[(idx / NFT + idx) % NFT] : ftab[idx % NFT];
+    { orc_uint32 v = (orc_uint32) hrng_next (r); if (hrng_below (r, 4)) v = (v & 0x807fffff) | ((100 + hrng_below (r, 56)) << 23); return v; }
+  }
+  if (!random) return second ? dtab[(idx / NDT + idx) % NDT] : dtab[idx % NDT];
+  { orc_uint64 v = hrng_next (r); if (hrng_below (r, 4)) v = (v & 0x800fffffffffffffULL) | ((orc_uint64) (1000 + hrng_below (r, 48)) << 52); return v; }
+}
+
+static int
+fmake (Prog *g, const char *opname, int mult, OrcTarget *t, int *cls, int kind, orc_uint64 cbits)
+{
+  OrcStaticOpcode *op = orc_opcode_find_by_name (opname);
+  unsigned flags = mult == 2 ? ORC_INSTRUCTION_FLAG_X2 : (mult == 4 ? ORC_INSTRUCTION_FLAG_X4 : 0);
+  int args[4] = { ORC_VAR_D1, ORC_VAR_D1, ORC_VAR_D1, ORC_VAR_D1 }, na = 0;
+  memset (g, 0, sizeof (*g));
+  if (!op) return 0;
+  g->op = op; g->mult = mult;
+  g->sd = op->dest_size[0]; g->sa = op->src_size[0]; g->sb = op->src_size[1];
+  if (g->sd * mult > 8 || g->sa * mult > 8 || g->sb * mult > 8) return 0;
+  if (kind && !g->sb) return 0;
+  g->p = orc_program_new ();
+  orc_program_set_name (g->p, opname);
+  g->var_d = orc_program_add_destination (g->p, g->sd * mult, "d1"); args[na++] = g->var_d;
+  g->var_a = orc_program_add_source (g->p, g->sa * mult, "s1"); args[na++] = g->var_a;
+  if (g->sb) {
+    if (kind == 2) {
+      if (g->sb > 4) g->var_b = orc_program_add_constant_int64 (g->p, 8, (orc_int64) cbits, "c1");
+      else g->var_b = orc_program_add_constant (g->p, 4, (int) cbits, "c1");
+      g->scalar_b = 2;
+    } else if (kind == 1) {
+      if (g->sb > 4) g->var_b = orc_program_add_parameter_double (g->p, 8, "p1");
+      else g->var_b = orc_program_add_parameter_float (g->p, 4, "p1");
+      g->scalar_b = 1;
+    } else g->var_b = orc_program_add_source (g->p, g->sb * mult, "s2");
+    args[na++] = g->var_b;
+  }
+  orc_program_append_2 (g->p, opname, flags, args[0], args[1], args[2], args[3]);
+  if (hc_mode == 'g') { *cls = hc_emit (g->p) ? 0 : 0x200; return 1; }
+  if (hc_mode == 'r') { g->cfn = hc_next (); *cls = g->cfn ? 0 : 0x200; return 1; }
+  *cls = orc_program_compile_for_target (g->p, t);
+  return 1;
+}
+
+static void
+frun_block (Prog *g, const char *path, int native, int n, int off, orc_uint64 bscalar)
+{
+  OrcExecutor ex;
+  HBuf ev;
+  static orc_uint8 FA[MAXN * 8], FB[MAXN * 8], H[MAXN * 8];
+  int ea = g->sa * g->mult, eb = g->sb * g->mult, ed = g->sd * g->mult, j, l, has_oracle = 0, ok = 1, k;
+  orc_uint8 *A = bufA + 64 + off * ea, *B = bufB + 64 + off * (eb ? eb : 1), *D = bufD + 64 + off * ed;
+  if (hc_mode == 'g') return;
+  _mm_setcsr (0x1f80);
+  for (j = 0; j < n; j++) for (l = 0; l < g->mult; l++) {
+    orc_uint64 a = getv (A + j * ea + l * g->sa, g->sa), b = g->sb ? (g->scalar_b ? bscalar : getv (B + j * eb + l * g->sb, g->sb)) : 0, h = 0;
+    orc_uint64 fa = g->sa == 4 ? flush32 ((orc_uint32) a) : flush64 (a), fb = g->sb == 4 ? flush32 ((orc_uint32) b) : flush64 (b);
+    if (oracle (g->op->name, fa, fb, &h)) {
+      has_oracle = 1;
+      put (FA + j * ea + l * g->sa, g->sa, fa);
+      if (g->sb) put (FB + (g->scalar_b ? 0 : j * eb + l * g->sb), g->sb, fb);
+      put (H + j * ed + l * g->sd, g->sd, h);
+    }
+  }
+  memset (&ex, 0, sizeof (ex));
+  orc_executor_set_program (&ex, g->p);
+  ex.n = n;
+  memset (D - 16, 0xa5, n * ed + 32);
+  ex.arrays[g->var_d] = D;
+  ex.arrays[g->var_a] = A;
+  if (g->sb) {
+    if (g->scalar_b == 1) { ex.params[g->var_b] = (int) bscalar; ex.params[g->var_b + (ORC_VAR_T1 - ORC_VAR_P1)] = (int) (bscalar >> 32); }
+    else if (g->scalar_b == 0) ex.arrays[g->var_b] = B;
+  }
+  _mm_setcsr (0x1f80);
+  if (g->cfn) g->cfn (&ex); else if (native) orc_executor_run (&ex); else orc_executor_emulate (&ex);
+  { unsigned csr = _mm_getcsr (); _mm_setcsr (0x1f80); hb_init (&ev); hb_printf (&ev, "\"e\":\"FRun\",\"op\":\"%s\",\"x\":%d,\"path\":\"%s\",\"n\":%d,\"off\":%d,\"sa\":%d,\"sb\":%d,\"sd\":%d,\"sc\":%d,\"csr\":%u",
+      g->op->name, g->mult, path, n, off, g->sa, g->sb, g->sd, g->scalar_b ? 1 : 0, csr & 0xffc0); }
+  bytes_json (&ev, "a", A, n * ea);
+  if (g->sb) {
+    if (g->scalar_b) { orc_uint8 t8[8]; put (t8, g->sb, bscalar); bytes_json (&ev, "b", t8, g->sb); }
+    else bytes_json (&ev, "b", B, n * eb);
+  } else bytes_json (&ev, "b", A, 0);
+  bytes_json (&ev, "d", D, n * ed);
+  if (has_oracle) {
+    bytes_json (&ev, "fa", FA, n * ea);
+    if (g->sb) bytes_json (&ev, "fb", FB, g->scalar_b ? g->sb : n * eb); else bytes_json (&ev, "fb", FA, 0);
+    bytes_json (&ev, "h", H, n * ed);
+  }
+  for (k = 1; k <= 16; k++) if (D[-k] != 0xa5 || D[n * ed + k - 1] != 0xa5) ok = 0;
+  hb_printf (&ev, ",\"fence\":%d", ok);
+  HEMIT ("%s", ev.s);
+  hb_free (&ev);
+}
+
+static void
+do_float (const char *path, const char *opname, int mult, const char *mode, unsigned long seed, int native, OrcTarget *t)
+{
+  static const int ns[] = { 1, 15, 16, 17, 33, 64, 7, 3, 31, 32, 100, 5, 8, 4 };
+  OrcStaticOpcode *o = orc_opcode_find_by_name (opname);
+  int kind = !strcmp (mode, "fpar") ? 1 : (!strcmp (mode, "fcon") ? 2 : 0), cls = 0, intsrc, T, c, round = 0;
+  unsigned long idx = 0, total;
+  HRng r;
+  Prog g;
+  if (!o) return;
+  r.s = seed * 0x9e3779b97f4a7c15ULL + fnv1a (opname, strlen (opname));
+  intsrc = !(o->flags & (ORC_STATIC_OPCODE_FLOAT_SRC)) ? 1 : 0;
+  if (o->src_size[0] == 2) intsrc = 1;
+  T = intsrc ? NIT : (o->src_size[0] == 4 ? NFT : NDT);
+  for (c = 0; c < (kind ? 10 : 1); c++) {
+    /* one program per scalar value (a constant is part of the program) */
+    orc_uint64 bs = kind ? fpick (&r, o->src_size[1], 0, (unsigned long) hrng_next (&r), 0, c >= 7) : 0;
+    if (!fmake (&g, opname, mult, t, &cls, kind, bs)) return;
+    if ((native || hc_mode) && !ORC_COMPILE_RESULT_IS_SUCCESSFUL (cls)) {
+      if (hc_mode != 'g') HEMIT ("\"e\":\"NoCode\",\"op\":\"%s\",\"x\":%d,\"path\":\"%s\",\"res\":%d", opname, mult, path, cls);
+      orc_program_free (g.p); return;
+    }
+    if (!native && !hc_mode && (ORC_COMPILE_RESULT_IS_FATAL (cls) || !g.p->orccode)) { orc_program_free (g.p); return; }
+    total = kind ? (unsigned long) T : (g.sb ? (unsigned long) T * T : (unsigned long) T);
+    idx = 0;
+    /* the table (all pairs), then seeded random operands */
+    while (idx < total + (kind ? 64 : 640)) {
+      int n = ns[round % 14], off = round % 5, j, l;
+      round++;
+      for (j = 0; j < n + off; j++) for (l = 0; l < mult; l++) {
+        int random = idx >= total;
+        put (bufA + 64 + (j * mult + l) * g.sa, g.sa, fpick (&r, g.sa, intsrc, idx, 0, random));
+        if (g.sb && !g.scalar_b) put (bufB + 64 + (j * mult + l) * g.sb, g.sb, fpick (&r, g.sb, 0, idx, 1, random));
+        if (j >= off) idx++;
+      }
+      frun_block (&g, path, native, n, off, bs);
+    }
+    orc_program_free (g.p);
+  }
+}
+
 static void
 do_line (const char *path, char *line)
 {
@@ -147,6 +344,7 @@ do_line (const char *path, char *line)
   if (sscanf (line, "%31s %d %15s %lu", opname, &mult, mode, &seed) < 3) return;
   hc_begin_line (line);
   r.s = seed * 0x9e3779b97f4a7c15ULL + fnv1a (opname, strlen (opname));
+  if (!strcmp (mode, "flt") || !strcmp (mode, "fpar") || !strcmp (mode, "fcon")) { do_float (path, opname, mult, mode, seed, native, t); return; }
   force_kind = !strcmp (mode, "par") ? 1 : (!strcmp (mode, "con") ? 2 : 0);
   if (force_kind == 2) {
     /* the constant is part of the program: one program per constant value */
